@@ -263,6 +263,9 @@ func NewPrefixPool(cidr string, delegationLen uint8, preferred, valid uint32) (*
 	if int(delegationLen) <= ones {
 		return nil, fmt.Errorf("delegation length must be greater than pool prefix length")
 	}
+	if delegationLen > 128 {
+		return nil, fmt.Errorf("delegation length must not exceed 128")
+	}
 
 	pool := &PrefixPool{
 		basePrefix:        ipnet,
